@@ -62,6 +62,9 @@ pub struct StoreScenario {
     pub filesystem: bool,
     /// C15: fail the k-th store write (None = no fault)
     pub fail_write: Option<u64>,
+    /// fail the k-th store write counted from the last one of the fault-free run (a dry run counts them)
+    #[serde(default)]
+    pub fail_write_from_end: Option<u64>,
 }
 
 /// One recorded draw as it was handed to the backend.
